@@ -486,6 +486,30 @@ class ConstEval:
                     except Exception as e:
                         raise NotConst(f'{v.func.attr} failed: {e}')
                     continue
+                if isinstance(v, ast.Call) and isinstance(v.func, ast.Attribute) and v.func.attr == '__init__' and isinstance(v.func.value, ast.Call) \
+                        and isinstance(v.func.value.func, ast.Name) and v.func.value.func.id == 'super' and not v.func.value.args \
+                        and fi.cls is not None and fi.params and isinstance(env.get(fi.params[0]), Instance) and id(env[fi.params[0]]) in st['fresh']:
+                    # super().__init__(...) while a value object is being built: the next constructor along the MRO of the object's class
+                    inst = env[fi.params[0]]
+                    mro = self.prog.mro(inst.ci)
+                    nxt = None
+                    if fi.cls in mro:
+                        for c_ in mro[mro.index(fi.cls) + 1:]:
+                            if '__init__' in c_.methods:
+                                nxt = c_.methods['__init__']
+                                break
+                    args_ = [ev(a) for a in v.args]
+                    if not all(k.arg for k in v.keywords):
+                        raise NotConst('** call')
+                    kw_ = {k.arg: ev(k.value) for k in v.keywords}
+                    if nxt is None:
+                        if args_ or kw_:
+                            raise NotConst('super().__init__ with arguments reaches object')
+                        continue
+                    if nxt.module.generated:
+                        raise NotConst('constructor not interpreted')
+                    self._run_function(nxt, [inst] + args_, kw_, fresh=[inst])
+                    continue
                 raise NotConst('expression statement ' + ast.unparse(v)[:60])
             if isinstance(s_, (ast.Assign, ast.AnnAssign)):
                 if isinstance(s_, ast.AnnAssign) and s_.value is None:
@@ -699,6 +723,10 @@ class ConstEval:
             if b is not None and b.kind == 'external' and b.value in ('collections.OrderedDict',):
                 return OrderedDict(ev(node.args[0])) if node.args else OrderedDict()
             raise NotConst(f'call {f.id}')
+        if isinstance(f, ast.Name) and f.id in env and isinstance(env[f.id], ClassRef) and env[f.id].ci is not None \
+                and not self.prog.is_enum(env[f.id].ci):
+            return self._construct(env[f.id].ci, [ev(a) for a in node.args],
+                                   {k.arg: ev(k.value) for k in node.keywords} if all(k.arg for k in node.keywords) else None)
         if isinstance(f, ast.Name) and f.id in env and callable(env[f.id]) and not node.keywords:
             try:
                 return env[f.id](*[ev(a) for a in node.args])
@@ -721,6 +749,13 @@ class ConstEval:
                 except Exception as e:
                     raise NotConst(f'maketrans failed: {e}')
             base = ev(f.value)
+            if isinstance(base, ClassRef) and base.ci is not None and not self.prog.is_enum(base.ci):
+                m_ = self.prog.find_method(base.ci, f.attr)
+                if m_ is not None and not m_.module.generated and m_.kind in ('classmethod', 'staticmethod') and all(k.arg for k in node.keywords):
+                    args_ = [ev(a) for a in node.args]
+                    if m_.kind == 'classmethod':
+                        args_ = [base] + args_
+                    return self._run_function(m_, args_, {k.arg: ev(k.value) for k in node.keywords})
             if isinstance(base, Instance):
                 # a method of a value object: interpreted with the object as receiver (it may fill only what it creates itself)
                 m_ = self.prog.find_method(base.ci, f.attr)
